@@ -638,8 +638,10 @@ class LoopSpec:
     Obligations: invariant on entry, invariant preserved by one arbitrary iteration, variant decreases.
     """
 
-    def __init__(self, qualname, ordinal, modifies, invariant, decreases=None, int_ranges=None, post=None):
+    def __init__(self, qualname, ordinal, modifies, invariant, decreases=None, int_ranges=None, post=None, only=None):
         self.qualname, self.ordinal = qualname, ordinal
+        # only: names of the lemmas the loop rule is used in (elsewhere the loop is unrolled as usual)
+        self.only = set(only) if only else None
         self.modifies = modifies
         self.invariant = invariant
         self.decreases = decreases
